@@ -14,6 +14,12 @@ ASSUME = [
     "'unchanged' is decided on digests of the store's task records, of its checkpoint records, of VerifSnapshot's "
     "book-keeping and of the in-memory task table (id=state)",
     "names containing '.' are not required to be rejected, only not to crash the handler now or later",
+    "the SHAPE of the target address (well-formed URI, userinfo with password, scheme-less host:port, unbalanced IPv6 "
+    "bracket, embedded blank / control character, bad %-escape, non-numeric port, empty, very long; as `uri` or as "
+    "`host` + `port`) is a class dimension of every create request, ENUMERATED by TLC (HttpApi_PlanAddr.cfg: server "
+    "states reachable by <= 1 create of any shape, one probe of any shape, one accepted request after it); the concrete "
+    "address inside a shape is SAMPLED; whether a create with an odd address is accepted is left open (the answer of the "
+    "connection probe is the environment's), only the empty address must be rejected",
     "TLC exhaustiveness holds for the constants in the cfg files only",
 ]
 
@@ -25,6 +31,8 @@ C = dict(
         dict(name="pp", module="HttpApi", cfg="HttpApi_Plan22.cfg", cap={"quick": 150}, workers=4, params={"max_tasks": 1}),
         # <= 2 accepted requests, one probe, one more accepted request: a reject must not disturb what follows
         dict(name="after", module="HttpApi", cfg="HttpApi_PlanAfter.cfg", cap={"quick": 200}, workers=4, params={"max_tasks": 1}),
+        # the shape of the target address as a dimension of every create (setup, probe), one accepted request after the probe
+        dict(name="addr", module="HttpApi", cfg="HttpApi_PlanAddr.cfg", cap={"quick": 240}, workers=4, params={"max_tasks": 1}),
         dict(name="s3", module="HttpApi", cfg="HttpApi_Plan3.cfg", workers=8, tiers=["thorough"], params={"max_tasks": 2}),
     ],
     directed="plans/C19.jsonl",
@@ -35,7 +43,10 @@ C = dict(
          "configuration (quick: seeded sample of them); a trace is non-trivial if a request was rejected while at least "
          "one task existed; distinct = distinct event sequences",
     assumptions=ASSUME,
-    validate_timeout=1500, driver_timeout=1500,
+    validate_timeout=1500, driver_timeout=2400,
+    # a create whose target address the client library cannot use costs the connection probe its time-out (1 s): the
+    # plans are replayed by several driver processes side by side (each has its own listeners and servers)
+    driver_parallel=6,
 )
 
 
@@ -45,4 +56,9 @@ def run(tier, replay=None):
         if not r.violated:
             raise vlib.Inconclusive("HttpApi_AsBuilt.cfg no longer violates the contract: the deviation switches are vacuous")
         vlib.log("[tlc] HttpApi/HttpApi_AsBuilt.cfg: violates %s as expected (models the code as built)" % sorted(set(r.violated)))
+        # negative control: the target address parsed as a URL with the parse error ignored must violate Total
+        r = vlib.run_tlc("HttpApi", "HttpApi_AddrUnchecked.cfg", workers=4, timeout=300)
+        if "Total" not in r.violated:
+            raise vlib.Inconclusive("HttpApi_AddrUnchecked.cfg no longer violates Total: the address-shape dimension is vacuous")
+        vlib.log("[tlc] HttpApi/HttpApi_AddrUnchecked.cfg: violates %s as expected (negative control)" % sorted(set(r.violated)))
     return flow.standard_flow(C, tier, replay)
